@@ -1,7 +1,7 @@
 #!/bin/bash
 # runseeds.sh <seeddir> [ID-k ...] : apply each seeded patch to a scratch copy of /repo and run the check(s) of its property
 SD=${1:-/tmp/seed/out}; shift
-S=/var/tmp/mut/repo
+S=/var/tmp/mut/repo; mkdir -p $S
 for d in $SD/*/; do
   id=$(basename $d)
   for k in 1 2 3; do
